@@ -951,10 +951,9 @@ def _run(rep, seed, tier, runner):
 
     known_findings_replay(rep, runner)
     if tier == "thorough":
-        rc, o, e = common.sh(["coqchk", "-silent", "-o", "-Q", ".", "Cb", "Cb.C16.Properties_C16"], cwd=common.COQ, timeout=1200)
-        txt = (o + e)
-        rep.coverage["coqchk"] = {"rc": rc, "axioms": "<none>" if "* Axioms: <none>" in txt else txt[-600:]}
-        if rc != 0:
+        ok, txt = common.coqchk(PROP)
+        rep.coverage["coqchk"] = {"ok": ok, "context_summary": txt[-700:]}
+        if not ok:
             rep.violation("coqchk", {"log": txt[-3000:]}, "coqchk rejects the compiled closure of Properties_C16", True)
     rep.assumptions += [
         "the model is tied to output_manager.cpp / evaluator.cpp / the parser by differential testing, not proof",
